@@ -420,3 +420,123 @@ pub extern "C" fn h_c06_rollback() {
     }
     check(same2, "later-probes-give-the-same-results-as-in-a-session-without-the-failure");
 }
+
+// ------------------------------------------------------------------------------------------------------------
+// C07 — incremental and batched submission agree; a copied session evolves independently
+//
+//   cfg 0..4 as for h_c06_rollback (cfg 2 = definitions, cfg 0 = token pattern of the following expression statement)
+//
+// Session A receives the definitions and the expression as two inputs, session B as one joined input. If both inputs of
+// A succeed, B must succeed with the same type and value, and all probes must agree afterwards. A copy of A taken
+// before the two inputs must still answer the probes as the untouched twin does.
+
+#[unsafe(no_mangle)]
+pub extern "C" fn h_c07_batch() {
+    init_tags();
+    let prelude = cfg(1).expect("cfg 1");
+    let prefix = cfg(2).expect("cfg 2");
+    let probes: Vec<String> = cfg(3).expect("cfg 3").split(';').map(|s| s.trim().to_string()).filter(|s| !s.is_empty()).collect();
+    let ident = cfg(4).map(|s| s.trim().to_string()).unwrap_or_else(|| String::from("x"));
+    let mut a_session = Session::new(&prelude);
+    let mut b_session = Session::new(&prelude);
+    let mut untouched = Session::new(&prelude);
+    checkpoint();
+    let pattern = cfg(0).expect("cfg 0");
+    let mut ks: Vec<u64> = Vec::new();
+    for (i, item) in pattern.split_ascii_whitespace().enumerate() {
+        if item == "s" || item == "o" {
+            let k = u64_(i as u32);
+            let mut ok = false;
+            if item == "s" {
+                for a in 0..K {
+                    ok |= k == tag(a);
+                }
+            } else {
+                for a in OPS {
+                    ok |= k == tag(a);
+                }
+            }
+            assume(ok);
+            ks.push(k);
+        } else {
+            ks.push(tag(item.parse().expect("kind index")));
+        }
+    }
+    if ks.is_empty() {
+        return;
+    }
+    let tokens = make_tokens(&ks);
+    if verif_parse_tokens(&tokens).is_err() {
+        cover("c07-outside-grammar");
+        return;
+    }
+    let a = alphabet();
+    let mut text = String::new();
+    for &k in &ks {
+        let mut idx = K;
+        for i in 0..K {
+            if k == tag(i) {
+                idx = i;
+                break;
+            }
+        }
+        if !text.is_empty() {
+            text.push(' ');
+        }
+        text.push_str(if idx == NUM {
+            "2"
+        } else if idx == ID {
+            ident.as_str()
+        } else {
+            a[idx as usize].1
+        });
+    }
+    obs_str("c07-expression", &text);
+    // a copy of A before anything is submitted
+    let mut copy = Session {
+        ctx: a_session.ctx.clone(),
+        printed: a_session.printed.clone(),
+    };
+    let r_defs = eval_key(&mut a_session, &prefix);
+    if !r_defs.starts_with("ok:") {
+        check(false, "definitions-of-the-case-are-accepted");
+        return;
+    }
+    let r_a = eval_key(&mut a_session, &text);
+    if !r_a.starts_with("ok:") {
+        cover("c07-expression-fails");
+        return;
+    }
+    cover("c07-incremental-succeeds");
+    let r_b = eval_key(&mut b_session, &format!("{prefix}\n{text}"));
+    if r_a != r_b {
+        obs_str("c07-incremental", &r_a);
+        obs_str("c07-batched", &r_b);
+    }
+    check(r_a == r_b, "batched-input-gives-the-same-result-as-incremental-inputs");
+    let mut same = true;
+    for p in &probes {
+        let x = eval_key(&mut a_session, p);
+        let y = eval_key(&mut b_session, p);
+        if x != y {
+            same = false;
+            obs_str("c07-probe", p);
+            obs_str("c07-incremental", &x);
+            obs_str("c07-batched", &y);
+        }
+    }
+    check(same, "probes-agree-after-incremental-and-batched-submission");
+    // the copy never saw the definitions
+    let mut indep = true;
+    for p in &probes {
+        let x = eval_key(&mut copy, p);
+        let y = eval_key(&mut untouched, p);
+        if x != y {
+            indep = false;
+            obs_str("c07-probe", p);
+            obs_str("c07-copy", &x);
+            obs_str("c07-untouched", &y);
+        }
+    }
+    check(indep, "copied-session-is-independent-of-the-original");
+}
